@@ -512,10 +512,19 @@ func containerRole1(v ssa.Value, seen map[ssa.Value]bool) string {
 		}
 		switch x := v.(type) {
 		case *ssa.Parameter:
-			return x.Name()
+			return canonParam(x)
 		case *ssa.Global:
 			return x.Name()
 		case *ssa.FreeVar:
+			// a captured variable: the parameter (or local) of the enclosing function it stands for
+			if b := freeVarBinding(x); b != nil {
+				if al, ok := b.(*ssa.Alloc); ok {
+					return cellRole(al)
+				}
+				if p, ok := b.(*ssa.Parameter); ok {
+					return canonParam(p)
+				}
+			}
 			return x.Name()
 		case *ssa.Slice:
 			v = x.X
@@ -524,8 +533,7 @@ func containerRole1(v ssa.Value, seen map[ssa.Value]bool) string {
 		case *ssa.Convert:
 			v = x.X
 		case *ssa.FieldAddr:
-			st := x.X.Type().Underlying().(*types.Pointer).Elem().Underlying().(*types.Struct)
-			return "." + st.Field(x.Field).Name()
+			return "." + canonField(x.X.Type(), x.Field)
 		case *ssa.IndexAddr:
 			v = x.X
 		case *ssa.UnOp:
